@@ -299,6 +299,9 @@ pub assume_specification [ u128::pow ] (base: u128, exp: u32) -> (r: u128)
 
 // ---------------------------------------------------------------- constructors / conversions
 impl Uint64 {
+    /// `wrapping_add`: modulo 2^64
+    #[verifier::external_body]
+    pub fn wrapping_add(self, o: Uint64) -> (r: Uint64) ensures r@ == (self@ + o@) % 0x1_0000_0000_0000_0000 { unimplemented!() }
     /// `full_mul`: the exact 128-bit product
     #[verifier::external_body]
     pub fn full_mul(self, o: Uint64) -> (r: Uint128) ensures r@ == self@ * o@ { unimplemented!() }
